@@ -27,6 +27,16 @@ TEXT = {
          "bounds: <=3 partitions over local + 2 remote nodes; interleavings at synchronisation points"),
  "C18": ("Bounded model checking of the real Allocator loop and cluster.Conn under concurrent catalogue and membership drivers; a watchdog that can only fire when all goroutines are blocked reports a wedge.",
          "bounds: <=2 membership and <=3 catalogue events, 1-3 preemptions; partitions not assigned to the local node (raft loading not exercised); no solver variables occur"),
+ "C03": ("Reduced claim: bounded model checking of the raft glue. The real RaftGroup.run loop is fed every Ready shape in the bound; on the recorded trace, for every crash instant, nothing is applied/acknowledged before the Ready was handed to the WAL, snapshots and entries are applied in order exactly once, local snapshots are labelled with the last applied index, a stored snapshot is restored before the first Ready. The end-to-end crash-recovery statement needs etcd/raft's replay and Badger's durability and is not decided.",
+         "bounds: <=2 Readys with <=2 entries, <=2 committed entries, optional received snapshot; etcd/raft and Badger trusted; WAL answers across reopen are C06; no native replay (harness node and recording WAL have no native counterpart in a real cluster)"),
+ "C05": ("Reduced claim: bounded model checking of the host-loop obligations etcd/raft documents: follower messages never leave before the Ready is saved, membership entries reach ApplyConfChange once in order (only the zero group touches the address book), undeliverable messages/snapshot outcomes are reported, Advance last, and a group with durable state is restarted rather than bootstrapped (real Server.setup run twice). Multi-replica safety/convergence under faults is etcd/raft's and is not decided.",
+         "bounds: <=2 Readys, <=2 messages of 5 types to reachable/unknown/failing peers; one restart; consensus trusted"),
+ "C06": ("Bounded symbolic differential checking of the real badgerWAL against etcd's real MemoryStorage over an API-level Badger model: every call sequence in the bound (appends incl. conflicting overwrites, hard state, received snapshots below/at/above the last index, compaction, reopen), terms symbolic through the real raftpb codec, every read compared; second group unaffected; deleted group looks fresh. Counterexamples are replayed on a real in-memory Badger.",
+         "bounds: <=3 calls (4 thorough), batches <=2, terms < 100; Badger API model trusted (validated by native replays); reference driven per the raft contract"),
+ "C12": ("Bounded model checking of a one-node server assembled from the real components (handlers, DatasetManager, Dataset, partitions, ready loops, badgerWAL, Allocator): one hostile well-typed request per RPC over all request shapes in the bound; panics, fatal logs (apply errors) and deadlocks are violations; counterexamples replayed on a native one-node assembly with real etcd raft and real in-memory Badger.",
+         "bounds: id shapes {valid, unknown, 15 bytes, empty}, vector shapes {right, longer, empty} with values {number, NaN}, k in {0,2,2^32-1}, <=2 batch items, catalogue shapes dimension 0..2 / partitions 0..2 / replicas 0..1 / undefined space; one schedule per request; no solver variables occur (exhaustive path enumeration by the symbolic executor)"),
+ "C14": ("Bounded model checking of the catalogue state machine (every log of create/delete/replica changes, every snapshot cut, every applied prefix: replay == restore+replay) and of restart through the real Server.setup wiring executed twice on one data directory (acknowledged datasets listed, deleted ones absent, with and without a compacted catalogue).",
+         "bounds: logs <=3-4 entries over 2 dataset ids; one restart; harness raft node; multi-node acknowledgement not decided; restart runs are not replayed natively"),
  "C19": ("Bounded symbolic model checking of the real utils.PriorityQueue + container/heap SSA: all push/pop/peek/reverse histories up to the bound, priorities symbolic; assertions discharged by z3 per path.",
          "bounds: 5 mixed / 6 push-pop operations (7 / 8 thorough) followed by a full drain, one Reverse per history; priorities finite non-NaN"),
 }
